@@ -50,8 +50,14 @@ fn term_txt(t: &PT) -> String {
     }
 }
 
+/// Terms are kept in lexical form; an object that is not an absolute IRI travels as a plain literal
+/// (the engine reports literal values bare, exactly as the reference evaluator sees them).
 fn ntriple(t: &[String; 3]) -> String {
-    format!("<{}> <{}> <{}> .", t[0], t[1], t[2])
+    if t[2].starts_with("http") {
+        format!("<{}> <{}> <{}> .", t[0], t[1], t[2])
+    } else {
+        format!("<{}> <{}> \"{}\" .", t[0], t[1], t[2])
+    }
 }
 
 fn norm_row(r: &Row) -> Row {
@@ -415,6 +421,140 @@ impl Part for Multi {
     }
 }
 
+/// Blocks that join on TWO OR THREE shared variables over a value universe in which different value tuples are
+/// easy to confuse (IRIs that are prefixes of one another, short numeric literals whose concatenations coincide:
+/// (s1,23) vs (s12,3), (1,12) vs (11,2)); the same oracle as the main part. Reaches the join of the per-window
+/// answer sets (and of the static part) where the main part mostly joins on zero or one variable.
+struct JoinKeys;
+
+fn jk_iri(i: usize) -> String {
+    iri(["s1", "s12", "s2", "s23"][i % 4])
+}
+fn jk_obj(i: usize) -> String {
+    if i < 5 {
+        ["1", "12", "2", "23", "3"][i].to_string()
+    } else {
+        jk_iri(i - 5)
+    }
+}
+
+#[derive(Clone, Debug)]
+struct JkBlock {
+    shape: u8,      // 0: ?x P ?y   1: ?r Pa ?x . ?r Pb ?y   2: ?x Pa ?y . ?x Pb ?z   3: ?r Pa ?x . ?r Pb ?y . (z := r)
+    own_vocab: bool, // predicates private to the block or shared with the others
+}
+
+impl Part for JoinKeys {
+    type Case = Case;
+    fn name(&self) -> &'static str {
+        "join-keys"
+    }
+    fn cases(&self, tier: Tier) -> u32 {
+        tier.pick(6_000, 150_000)
+    }
+    fn strategy(&self, tier: Tier) -> BoxedStrategy<Case> {
+        let max_ev = tier.pick(24usize, 40usize);
+        let block = (0u8..3, proptest::bool::weighted(0.5)).prop_map(|(shape, own_vocab)| JkBlock { shape, own_vocab });
+        (
+            proptest::collection::vec((1usize..=6, 1usize..=6, block.clone()), 2..=3),
+            proptest::option::weighted(0.4, block),
+            proptest::collection::vec((0usize..4, 0usize..2, 0usize..7), 1..=8),
+            0u8..4,
+            proptest::bool::weighted(0.1),
+            proptest::collection::vec((0usize..3, prop_oneof![4 => 0usize..=1, 2 => 1usize..=2, 1 => 3usize..=8], (0usize..4, 0usize..2, 0usize..7), proptest::bool::weighted(0.25)), 8..=max_ev),
+        )
+            .prop_map(|(wins, stat, static_raw, policy, multi_thread, events_raw)| {
+                let nw = wins.len();
+                let pred = |k: usize, own: bool, which: usize| -> String {
+                    if own {
+                        iri(&format!("q{k}{}", ["a", "b"][which]))
+                    } else {
+                        iri(["pa", "pb"][which])
+                    }
+                };
+                let mk_patterns = |k: usize, b: &JkBlock| -> Vec<[PT; 3]> {
+                    let v = |n: &str| PT::Var(n.to_string());
+                    let c = |s: String| PT::C(Tm::Iri(s));
+                    match b.shape {
+                        0 => vec![[v("x"), c(pred(k, b.own_vocab, 0)), v("y")]],
+                        1 => vec![[v(&format!("r{k}")), c(pred(k, b.own_vocab, 0)), v("x")], [v(&format!("r{k}")), c(pred(k, b.own_vocab, 1)), v("y")]],
+                        _ => vec![[v("x"), c(pred(k, b.own_vocab, 0)), v("y")], [v("x"), c(pred(k, b.own_vocab, 1)), v("z")]],
+                    }
+                };
+                // the (x, y) pairs the parts are meant to join on; (s1,23) / (s12,3) are different pairs with the same concatenation
+                let pair = |i: usize| -> (String, String) {
+                    let (x, y) = [("s1", "23"), ("s12", "3"), ("s1", "3"), ("s2", "23")][i % 4];
+                    (iri(x), y.to_string())
+                };
+                // one complete instance of a block's shape for pair i: its answers then contain (x, y) of that pair
+                let instance = |k: usize, b: &JkBlock, i: usize, which: usize, o: usize| -> Vec<[String; 3]> {
+                    let (x, y) = pair(i);
+                    match b.shape {
+                        0 => vec![[x, pred(k, b.own_vocab, 0), y]],
+                        1 => {
+                            let r = jk_iri(o);
+                            vec![[r.clone(), pred(k, b.own_vocab, 0), x], [r, pred(k, b.own_vocab, 1), y]]
+                        }
+                        _ => {
+                            let mut v = vec![[x.clone(), pred(k, b.own_vocab, 0), y], [x, pred(k, b.own_vocab, 1), jk_obj(o)]];
+                            if which == 1 {
+                                v.swap(0, 1);
+                            }
+                            v
+                        }
+                    }
+                };
+                let windows: Vec<Win> = wins.iter().enumerate().map(|(k, (w, s, b))| Win { width: *w, slide: *s, patterns: mk_patterns(k, b) }).collect();
+                let mut events: Vec<(usize, usize, [String; 3])> = vec![];
+                for (st, gap, (s, which, o), noise) in events_raw {
+                    let k = st % nw;
+                    let b = &wins[k].2;
+                    if noise {
+                        // a single arbitrary triple over the block's predicates
+                        events.push((k, gap, [jk_iri(s), pred(k, b.own_vocab, which), jk_obj(o)]));
+                    } else {
+                        for (j, t) in instance(k, b, s, which, o).into_iter().enumerate() {
+                            events.push((k, if j == 0 { gap } else { 0 }, t));
+                        }
+                    }
+                }
+                let (static_patterns, static_data) = match stat {
+                    Some(b) => {
+                        let pats = mk_patterns(9, &JkBlock { shape: b.shape, own_vocab: true });
+                        let sb = JkBlock { shape: b.shape, own_vocab: true };
+                        let data: Vec<[String; 3]> = static_raw.into_iter().flat_map(|(s, which, o)| instance(9, &sb, s, which, o)).collect();
+                        (pats, data)
+                    }
+                    None => (vec![], vec![]),
+                };
+                Case { windows, static_patterns, static_data, policy, multi_thread, events }
+            })
+            .boxed()
+    }
+    fn check(&self, c: &Case) -> Outcome {
+        let mut o = check_case(c);
+        // how many variables two parts of the query share (the join keys)
+        let mut parts: Vec<BTreeSet<String>> = c.windows.iter().map(|w| vars_of(&w.patterns)).collect();
+        if !c.static_patterns.is_empty() {
+            parts.push(vars_of(&c.static_patterns));
+        }
+        let mut max_shared = 0;
+        for a in 0..parts.len() {
+            for b in a + 1..parts.len() {
+                max_shared = max_shared.max(parts[a].intersection(&parts[b]).count());
+            }
+        }
+        o.class_if(max_shared >= 2, "join-on>=2-variables");
+        o.class_if(max_shared >= 3, "join-on-3-variables");
+        o.nontrivial = o.classes.contains(&"rows-emitted") && o.classes.contains(&"all-windows-fired") && max_shared >= 2;
+        o
+    }
+    fn describe(&self, c: &Case) -> serde_json::Value {
+        json!({"query": query_text(c), "static": c.static_data.iter().map(ntriple).collect::<Vec<_>>(), "policy": c.policy % 4, "multi_thread": c.multi_thread,
+               "events": c.events.iter().map(|(s, g, t)| format!("stream{s} +{g} {}", ntriple(t))).collect::<Vec<_>>()})
+    }
+}
+
 fn main() {
     let mut s = Session::start(
         "C11",
@@ -422,10 +562,13 @@ fn main() {
         "engines built through RSPBuilder from generated RSP-QL text with 2-3 windows on distinct streams (independent RANGE/STEP in 1..6), per-window blocks of 1-2 patterns over a small shared vocabulary (the same predicate/class IRIs appear in several blocks and on several streams), \
          optional static patterns with add_static_ntriples data sharing that vocabulary, policies Wait/Steal/Timeout(steal|drop), single-thread (85%) and multi-thread mode, interleaved in-order streams of 4-24/40 events. Oracle: one probe window per configured window records every content that window reported; \
          every emitted row restricted to the variables of block k must be a reference-BGP answer of block k over SOME content window k has reported so far, and its static part an answer of the static patterns over the static data alone. \
-         Non-trivial = every window fired, two blocks share a predicate, and at least one row was emitted.",
+         Non-trivial = every window fired, two blocks share a predicate, and at least one row was emitted. \
+         Part join-keys: blocks (and the static part) of shapes {?x P ?y | ?r Pa ?x . ?r Pb ?y | ?x Pa ?y . ?x Pb ?z} that join on 2-3 shared variables over a value universe whose tuples are easy to confuse \
+         (IRIs that are prefixes of one another, plain literals 1/12/2/23/3); same oracle; non-trivial there = every window fired, rows emitted, and two parts share >= 2 variables.",
     );
     s.assume("existential over past firings of the same window: sound for every synchronisation policy including Steal and for accumulated single-thread buffers");
     s.assume("rows observed after feeding event i are attributed to contents reported up to event i (conservative); stop()/flush() not called");
     s.run(&Multi);
+    s.run(&JoinKeys);
     std::process::exit(s.finish());
 }
